@@ -111,8 +111,9 @@ quoted scalars with escapes, unquoted scalars, any valid blank layout incl. comm
 tight gaps where lexically permitted); fragment 2 = the same with nested non-empty objects of any
 depth as values (`key op { fields }`, incl. `?=` / `!=` on the first field); fragment 3 = values
 are scalars, empty containers `{}`, objects, and arrays of scalars / objects / arrays / empty
-containers, nested to any depth (the structure of save files).  Missing fragments: the optional
-`=` before `{`, ghost `{}` in key position and at the start of a container, headers (`rgb {..}`),
+containers, nested to any depth (the structure of save files), fields written with or without
+the optional `=` before `{` (`a={..}` and `a{..}` have the same content), ghost `{}` in key
+position.  Missing fragments: ghost `{}` at the start of a container, headers (`rgb {..}`),
 parameter blocks, object→array mixed containers, `@[..]` variables and unquoted scalars starting
 with `@`, BOM in front of a document (C01_bom covers it separately).  These are decided by the
 correspondence run and the layout/faithfulness oracles.
